@@ -606,6 +606,8 @@ Record hcase := mk_hcase {
   hc_go_reset : bool;               (* the writer saw the stream reset *)
   hc_go_still_serving : bool;       (* second stream's message was received *)
   hc_go_panic : bool;               (* a panic escaped FromNet (recovered by the driver) *)
+  hc_survived : bool;               (* the observing process was still alive afterwards (resource bombs are observed
+                                       in a child process: a stack overflow or an out-of-memory kill is not a panic) *)
   hc_oracle : oracle }.
 
 Definition ev_msgs (l : list ev) : list msg :=
@@ -650,7 +652,7 @@ Definition frame_count (bs : bytes) : option N := frame_count_fuel (S (List.leng
 
 Definition hcase_mon (c : hcase) : bool :=
   let H := oracle_H (hc_oracle c) in
-  negb (hc_go_panic c)
+  negb (hc_go_panic c) && hc_survived c
   && forallb (delivered_ok H) (hc_go_msgs c)
   && (match hc_go_first c with GMsg g => delivered_ok H g | GPanic => false | _ => true end)
   && (hc_go_errors c <=? 1)
